@@ -7,7 +7,10 @@ import (
 	"crypto/sha256"
 	"encoding/hex"
 	"fmt"
+	"runtime"
+	"runtime/debug"
 	"strings"
+	"syscall"
 	"time"
 
 	"github.com/taurusgroup/multi-party-sig/pkg/party"
@@ -90,7 +93,12 @@ type Net struct {
 	// Views[recipient][round][sender] = hash of the first delivered broadcast payload.
 	Views map[party.ID]map[int]map[party.ID]string
 	// AcceptHang is set when an Accept call did not return within the watchdog.
-	AcceptHang string
+	AcceptHang     string
+	AcceptHangDump string
+	AcceptHangCPU  int64
+	AcceptWatchdog time.Duration
+	// Measure, when set, receives the process CPU time and the bytes allocated during every Accept call.
+	Measure func(p *Party, m *protocol.Message, cpuNs int64, allocBytes uint64)
 	// LogLimit bounds the log (0 = unbounded).
 	KeepLog bool
 }
@@ -253,14 +261,26 @@ func (n *Net) AcceptWithDrain(p *Party, m *protocol.Message) {
 	}
 	done := make(chan struct{})
 	var pv any
+	var cpu0 int64
+	var ms0 runtime.MemStats
+	if n.Measure != nil {
+		runtime.ReadMemStats(&ms0)
+		cpu0 = cpuNanos()
+	}
 	go func() {
 		defer func() {
-			pv = recover()
+			if r := recover(); r != nil {
+				pv = &PanicInfo{Val: r, Stack: string(debug.Stack())}
+			}
 			close(done)
 		}()
 		p.H.Accept(m)
 	}()
-	watchdog := time.NewTimer(10 * time.Minute)
+	wd := n.AcceptWatchdog
+	if wd == 0 {
+		wd = 10 * time.Minute
+	}
+	watchdog := time.NewTimer(wd)
 	defer watchdog.Stop()
 	for {
 		select {
@@ -272,11 +292,20 @@ func (n *Net) AcceptWithDrain(p *Party, m *protocol.Message) {
 			}
 			n.enqueue(p, mm)
 		case <-done:
+			if n.Measure != nil {
+				var ms1 runtime.MemStats
+				runtime.ReadMemStats(&ms1)
+				n.Measure(p, m, cpuNanos()-cpu0, ms1.TotalAlloc-ms0.TotalAlloc)
+			}
 			if pv != nil {
 				panic(pv) // re-raise in the simulator goroutine (case-level Guard attributes it)
 			}
 			return
 		case <-watchdog.C:
+			buf := make([]byte, 1<<20)
+			k := runtime.Stack(buf, true)
+			n.AcceptHangDump = string(buf[:k])
+			n.AcceptHangCPU = cpuNanos() - cpu0
 			n.AcceptHang = fmt.Sprintf("Accept at %s of round-%d message from %s did not return within the wall-clock watchdog", p.ID, m.RoundNumber, m.From)
 			return
 		}
@@ -393,4 +422,21 @@ func (n *Net) OrderHash() string {
 		}
 	}
 	return hex.EncodeToString(h.Sum(nil)[:8])
+}
+
+// PanicInfo carries a panic that happened inside Accept, with the stack of the panicking goroutine.
+type PanicInfo struct {
+	Val   any
+	Stack string
+}
+
+func (p *PanicInfo) Error() string     { return fmt.Sprint(p.Val) }
+func (p *PanicInfo) StackText() string { return p.Stack }
+
+func cpuNanos() int64 {
+	var ru syscall.Rusage
+	if syscall.Getrusage(syscall.RUSAGE_SELF, &ru) != nil {
+		return 0
+	}
+	return ru.Utime.Nano() + ru.Stime.Nano()
 }
